@@ -224,6 +224,65 @@ func checkC11(w *Worker) {
 		}
 		c11Body(x, book, n, api, "acyclic")
 	})
+	// the limit as the user gives it: --maxdepth, HR_MAXDEPTH or the configuration file, through the real commands
+	w.appInit()
+	w.Explore("limit-through-flag-env-config", ExploreOpts{ShardDepth: 3}, func(x *Exec) {
+		src := x.Choose(5, "config:limit-source") // flag, env, --config file, HR_CONFIG file, default (10)
+		n := []int{1, 2, 3, 4, 11, 12}[x.Choose(6, "input:maxdepth")]
+		if src == 4 {
+			n = 10
+		}
+		delta := x.Choose(3, "input:chain-length") - 1 // longest chain = N-1, N, N+1... (0 -> N-1, 1 -> N, 2 -> cyclic)
+		ci := x.Choose(4, "input:command")
+		L := n - 1 + delta
+		var sb strings.Builder
+		if delta == 2 {
+			L = 2
+			sb.WriteString("c1:\n  c2: 1\nc2:\n  c1: 1\n  cal: 1\n")
+		} else {
+			for i := 1; i <= L; i++ {
+				next := fmt.Sprintf("c%02d", i+1)
+				if i == L {
+					next = "cal"
+				}
+				sb.WriteString(fmt.Sprintf("c%02d:\n  %s: 1\n", i, next))
+			}
+			if L == 0 {
+				sb.WriteString("c01:\n")
+			}
+		}
+		files := map[string]string{"food.yaml": sb.String(), "log.yaml": "2021/01/24:\n  c01: 1\n"}
+		c := appCase{Files: files, Env: map[string]string{}}
+		switch src {
+		case 0:
+			c.Args = []string{"--maxdepth", fmt.Sprint(n)}
+		case 1:
+			c.Env["HR_MAXDEPTH"] = fmt.Sprint(n)
+		case 2:
+			files["depth.cfg"] = fmt.Sprintf("[Resolver]\nMaxDepth=%d\n", n)
+			c.Args = []string{"--config", "depth.cfg"}
+		case 3:
+			files["depth.cfg"] = fmt.Sprintf("[Resolver]\nMaxDepth=%d\n", n)
+			c.Env["HR_CONFIG"] = "depth.cfg"
+		}
+		c.Args = append(c.Args, [][]string{{"--no-color", "reg"}, {"csv", "database-resolved"}, {"report", "element-total", "cal"}, {"--no-color", "bal", "-s", "cal"}}[ci]...)
+		r := runApp(c)
+		wantErr := delta == 2 || L >= n
+		x.Obs(fmt.Sprint(r.Failed), r.Err)
+		x.Case(fmt.Sprint(src, n, delta, ci), true)
+		srcName := []string{"--maxdepth", "HR_MAXDEPTH", "--config file", "HR_CONFIG file", "default"}[src]
+		rep := map[string]interface{}{"cmd": c.shell(), "limit": n, "limit_source": srcName, "longest_chain": L, "cyclic": delta == 2, "observed": r.String()}
+		if r.Panic != "" {
+			x.Violate("C11|app|panic", fmt.Sprintf("`%s`: %s", c.shell(), r.Panic), rep)
+			return
+		}
+		if wantErr && (!r.Failed || r.Err != depthErrText) {
+			x.Violate("C11|app|"+srcName+"|chain-ge-N-accepted", fmt.Sprintf("limit %d given through %s, longest chain %d (cyclic: %v): `%s` did not fail with the depth error: %s", n, srcName, L, delta == 2, c.shell(), r.String()), rep)
+		}
+		if !wantErr && r.Failed {
+			x.Violate("C11|app|"+srcName+"|chain-lt-N-rejected", fmt.Sprintf("limit %d given through %s, longest chain %d: `%s` failed: %s", n, srcName, L, c.shell(), r.Err), rep)
+		}
+	})
 	// pure chains c1 -> c2 -> ... -> cL -> x, around every N
 	maxL, maxN := 6, 8
 	if w.Tier == "thorough" {
